@@ -1,12 +1,12 @@
 (* C18 — proofs about TypeModel against TypeSpec.
 
-   Main results (statements at the end of the file):
+   Main results:
      parse_print            : parse_dt fuel (print_ty t ++ rest) = Ok (Some (expect_dt t), rest)
      fmt_expect             : fmt_dt (expect_dt t) = esc (esc (canon_ty t))
-     C18_casts_partial      : both cast parsers obtain the type and both positions show [shown t],
-                              for every wf_ty t with code_ok t (the four known deviations excluded)
-     C18_run_partial        : the same for the driver entry points run_cast_as / run_cast_op
-     C18_refuted_F1..F4     : the full statement (without code_ok) is false in the model, with witnesses *)
+     C18_casts              : both cast parsers obtain the type and both positions show [shown t], for every wf_ty t
+     C18_run                : the same for the driver entry points run_cast_as / run_cast_op
+     former_F1..F4_fixed    : the four former counterexamples now print the canonical text
+     residual_named_elem    : the one combination left outside wf_ty (Tuple(date LineString)) is a parse error *)
 From Coq Require Import List NArith Bool Lia ZifyN ZifyNat ZifyBool.
 From DC Require Import Base.Item Gen.TokenTable Expr.TypeBase Expr.TypeSpec Expr.TypeModel.
 Import ListNotations.
@@ -56,23 +56,24 @@ Proof.
   rewrite esc_cons, esc_app. reflexivity.
 Qed.
 
-(* Go's escapeStringForTypeParam is three applications, except for the quote *)
-Lemma estp_byte_esc3 : forall b, (b =? 39) = false -> estp_byte b = esc (esc (esc_byte b)).
+(* Go's escapeStringForTypeParam is three applications of the one-level escape *)
+Lemma estp_byte_esc3 : forall b, estp_byte b = esc (esc (esc_byte b)).
 Proof.
-  intros b H39. unfold estp_byte, esc_byte. rewrite H39. split_byte b; try discriminate.
+  intros b. unfold estp_byte, esc_byte. split_byte b.
   cbn. rewrite !app_nil_r. unfold esc_byte. rewrite E92, E39, E10, E9, E13, E0, E8, E12. cbn.
   unfold esc_byte. rewrite E92, E39, E10, E9, E13, E0, E8, E12. reflexivity.
 Qed.
 
-Lemma escape_type_param_esc3 : forall s,
-  forallb (fun b => negb (b =? 39)) s = true -> escape_type_param s = esc (esc (esc s)).
+Lemma escape_type_param_esc3 : forall s, escape_type_param s = esc (esc (esc s)).
 Proof.
-  induction s as [|b s IH]; intros H; [reflexivity|].
-  cbn [forallb] in H. apply andb_true_iff in H. destruct H as [Hb Hs].
-  apply negb_true_iff in Hb.
-  unfold escape_type_param in *. cbn [flat_map]. rewrite (IH Hs), (estp_byte_esc3 b Hb).
+  induction s as [|b s IH]; [reflexivity|].
+  unfold escape_type_param in *. cbn [flat_map]. rewrite IH, (estp_byte_esc3 b).
   rewrite esc_cons, !esc_app. reflexivity.
 Qed.
+
+(* bytes the escape leaves alone *)
+Definition plain_byte (b : N) : bool :=
+  negb ((b =? 92) || (b =? 39) || (b =? 10) || (b =? 9) || (b =? 13) || (b =? 0) || (b =? 8) || (b =? 12)).
 
 Lemma plain_byte_esc : forall b, plain_byte b = true -> esc_byte b = [b].
 Proof.
@@ -197,10 +198,6 @@ Lemma wf_ty_app : forall s args,
   forallb (wf_arg (uses_named (to_upper s))) args.
 Proof. reflexivity. Qed.
 
-Lemma code_ok_app : forall s args,
-  code_ok (TApp s args) = forallb (code_ok_arg (uses_named (to_upper s))) args.
-Proof. reflexivity. Qed.
-
 Lemma fmt_dt_cons : forall n b p ps,
   fmt_dt (DT n b (p :: ps)) = n ++ [40] ++ join comma_space (map fmt_param (p :: ps)) ++ [41].
 Proof. reflexivity. Qed.
@@ -216,19 +213,17 @@ Proof.
 Qed.
 
 Definition Pf (t : ty) : Prop :=
-  wf_ty t = true -> code_ok t = true -> fmt_dt (expect_dt t) = e2 (canon_ty t).
+  wf_ty t = true -> fmt_dt (expect_dt t) = e2 (canon_ty t).
 Definition Qf (a : arg) : Prop :=
-  forall named, wf_arg named a = true -> code_ok_arg named a = true ->
-  fmt_param (expect_param a) = e2 (canon_arg a).
+  forall named, wf_arg named a = true -> fmt_param (expect_param a) = e2 (canon_arg a).
 
 Lemma fmt_args : forall named args, Forall Qf args ->
-  forallb (wf_arg named) args = true -> forallb (code_ok_arg named) args = true ->
+  forallb (wf_arg named) args = true ->
   map fmt_param (map expect_param args) = map e2 (map canon_arg args).
 Proof.
-  intros named args HF. induction HF as [|a r Ha _ IH]; intros Hw Hc; [reflexivity|].
-  cbn [forallb] in Hw, Hc. apply andb_true_iff in Hw. apply andb_true_iff in Hc.
-  destruct Hw as [Hw1 Hw2]. destruct Hc as [Hc1 Hc2].
-  cbn [map]. rewrite (Ha named Hw1 Hc1), (IH Hw2 Hc2). reflexivity.
+  intros named args HF. induction HF as [|a r Ha _ IH]; intros Hw; [reflexivity|].
+  cbn [forallb] in Hw. apply andb_true_iff in Hw. destruct Hw as [Hw1 Hw2].
+  cbn [map]. rewrite (Ha named Hw1), (IH Hw2). reflexivity.
 Qed.
 
 Lemma needs_backtick_ident : forall s, ident_ok s = true -> needs_backtick s = false.
@@ -239,47 +234,44 @@ Qed.
 Lemma fmt_expect_all : forall t, Pf t.
 Proof.
   apply (ty_ind2 Pf Qf).
-  - (* TName *) intros s Hw _. cbn in Hw |- *. symmetry. apply ident_e2, Hw.
+  - (* TName *) intros s Hw. cbn in Hw |- *. symmetry. apply ident_e2, Hw.
   - (* TApp *)
-    intros s args HF Hw Hc. apply wf_app_inv in Hw. destruct Hw as (Hs & _ & Hne & Hwa).
-    rewrite code_ok_app in Hc.
+    intros s args HF Hw. apply wf_app_inv in Hw. destruct Hw as (Hs & _ & Hne & Hwa).
     destruct args as [|a r]; [congruence|].
     cbn [expect_dt canon_ty]. cbn [map]. rewrite fmt_dt_cons.
     change (expect_param a :: map expect_param r) with (map expect_param (a :: r)).
-    rewrite (fmt_args _ _ HF Hwa Hc).
+    rewrite (fmt_args _ _ HF Hwa).
     rewrite !e2_app, e2_join, (ident_e2 s Hs). reflexivity.
   - (* AType *)
-    intros t IH named Hw Hc. cbn [wf_arg code_ok_arg] in Hw, Hc.
+    intros t IH named Hw. cbn [wf_arg] in Hw.
     apply andb_true_iff in Hw. destruct Hw as [Hwt Hat].
-    apply andb_true_iff in Hc. destruct Hc as [Hct _].
     destruct t as [s|s args].
     + cbn [expect_param]. destruct (is_dtn s).
       * cbn [fmt_param canon_arg]. apply IH; assumption.
       * cbn in Hwt |- *. symmetry. apply ident_e2, Hwt.
     + cbn [expect_param fmt_param canon_arg]. apply IH; assumption.
   - (* ANamed *)
-    intros s t IH named Hw Hc. cbn [wf_arg code_ok_arg] in Hw, Hc.
+    intros s t IH named Hw. cbn [wf_arg] in Hw.
     repeat (apply andb_true_iff in Hw; destruct Hw as [Hw ?]).
-    apply andb_true_iff in Hc. destruct Hc as [Hct _].
     cbn [expect_param fmt_param canon_arg].
     rewrite (needs_backtick_ident s) by assumption.
-    rewrite (IH ltac:(assumption) Hct), !e2_app, (ident_e2 s) by assumption. reflexivity.
-  - (* ANum *) intros n named _ _. cbn [expect_param fmt_param canon_arg]. symmetry. apply dec_e2.
+    rewrite (IH ltac:(assumption)), !e2_app, (ident_e2 s) by assumption. reflexivity.
+  - (* ANum *) intros n named _. cbn [expect_param fmt_param canon_arg]. symmetry. apply dec_e2.
   - (* ANeg *)
-    intros n named _ _. cbn [expect_param fmt_param canon_arg].
+    intros n named _. cbn [expect_param fmt_param canon_arg].
     change (45 :: to_dec n) with ([45] ++ to_dec n). rewrite e2_app, dec_e2. reflexivity.
-  - (* AStr *)
-    intros s named _ Hc. cbn [code_ok_arg] in Hc. cbn [expect_param fmt_param canon_arg].
+  - (* AStr: every byte string *)
+    intros s named _. cbn [expect_param fmt_param canon_arg].
     unfold quoted. change (39 :: esc s ++ [39]) with ([39] ++ esc s ++ [39]).
-    rewrite !e2_app. unfold e2 at 2. rewrite !(plain_esc s Hc). reflexivity.
-  - (* AEnum *)
-    intros s neg n named _ Hc. cbn [code_ok_arg] in Hc. cbn [expect_param fmt_param canon_arg].
+    rewrite !e2_app. unfold e2 at 2. rewrite (escape_type_param_esc3 s). reflexivity.
+  - (* AEnum: every byte string *)
+    intros s neg n named _. cbn [expect_param fmt_param canon_arg].
     unfold quoted. change (39 :: esc s ++ [39]) with ([39] ++ esc s ++ [39]).
-    rewrite !e2_app, dec_e2. unfold e2 at 2. rewrite (escape_type_param_esc3 s Hc).
+    rewrite !e2_app, dec_e2. unfold e2 at 2. rewrite (escape_type_param_esc3 s).
     destruct neg; reflexivity.
 Qed.
 
-Theorem fmt_expect : forall t, wf_ty t = true -> code_ok t = true ->
+Theorem fmt_expect : forall t, wf_ty t = true ->
   fmt_dt (expect_dt t) = esc (esc (canon_ty t)).
 Proof. intros t. apply fmt_expect_all. Qed.
 
@@ -450,12 +442,12 @@ with fuel_arg (a : arg) : nat :=
 
 Definition Pp (t : ty) : Prop :=
   forall fuel rest, (fuel_ty t <= fuel)%nat -> follow_ok rest = true ->
-  wf_ty t = true -> code_ok t = true ->
+  wf_ty t = true ->
   parse_dt fuel (print_ty t ++ rest) = Ok (Some (expect_dt t), rest).
 
 Definition Qp (a : arg) : Prop :=
   forall named f acc tail, (fuel_arg a <= f)%nat -> sep_head tail = true ->
-  wf_arg named a = true -> code_ok_arg named a = true ->
+  wf_arg named a = true ->
   parse_params (S f) named acc (print_arg a ++ tail) = after f named (acc ++ [expect_param a]) tail.
 
 Lemma named_param_nonname : forall named ts, is_name (cur ts) = false -> named_param named ts = false.
@@ -463,7 +455,7 @@ Proof. intros named ts H. unfold named_param. rewrite H, andb_false_r. reflexivi
 
 Lemma step_num : forall n, Qp (ANum n).
 Proof.
-  intros n named f acc tail _ Hsep Hw _. cbn [wf_arg] in Hw.
+  intros n named f acc tail _ Hsep Hw. cbn [wf_arg] in Hw.
   cbn [print_arg expect_param app]. rewrite parse_params_eq.
   rewrite (named_param_nonname named (t_number n :: tail)) by reflexivity.
   cbn [cur]. simp_tok. cbn [orb andb].
@@ -490,7 +482,7 @@ Qed.
 
 Lemma step_neg : forall n, Qp (ANeg n).
 Proof.
-  intros n named f acc tail _ Hsep Hw _. cbn [wf_arg] in Hw.
+  intros n named f acc tail _ Hsep Hw. cbn [wf_arg] in Hw.
   cbn [print_arg expect_param app]. rewrite parse_params_eq.
   rewrite (named_param_nonname named (t_minus :: t_number n :: tail)) by reflexivity.
   cbn [cur]. simp_tok. cbn [orb andb].
@@ -500,7 +492,7 @@ Qed.
 
 Lemma step_str : forall s, Qp (AStr s).
 Proof.
-  intros s named f acc tail _ Hsep _ _.
+  intros s named f acc tail _ Hsep _.
   cbn [print_arg expect_param app]. rewrite parse_params_eq.
   rewrite (named_param_nonname named (t_string s :: tail)) by reflexivity.
   cbn [cur]. simp_tok. cbn [orb andb].
@@ -510,7 +502,7 @@ Qed.
 
 Lemma step_enum : forall s neg n, Qp (AEnum s neg n).
 Proof.
-  intros s neg n named f acc tail _ Hsep Hw _. cbn [wf_arg] in Hw.
+  intros s neg n named f acc tail _ Hsep Hw. cbn [wf_arg] in Hw.
   cbn [print_arg expect_param]. rewrite parse_params_eq.
   rewrite (named_param_nonname named ((t_string s :: t_eq :: (if neg then [t_minus] else []) ++ [t_number n]) ++ tail))
     by reflexivity.
@@ -556,25 +548,29 @@ Qed.
 
 Lemma step_type : forall t, Pp t -> Qp (AType t).
 Proof.
-  intros t IH named f acc tail Hf Hsep Hw Hc.
-  cbn [wf_arg code_ok_arg fuel_arg] in Hw, Hc, Hf.
+  intros t IH named f acc tail Hf Hsep Hw.
+  cbn [wf_arg fuel_arg] in Hw, Hf.
   apply andb_true_iff in Hw. destruct Hw as [Hwt Hat].
-  apply andb_true_iff in Hc. destruct Hc as [Hct Hn].
   unfold arg_type_ok in Hat. apply andb_true_iff in Hat. destruct Hat as [Hfirst Hat].
   cbn [print_arg]. rewrite parse_params_eq, (cur_print_ty t tail), (loop_guard_name _ Hfirst).
-  (* isNamedParam is false *)
+  (* isNamedParam is false: a plain name is followed by "," or ")", a constructor is a known type name *)
   assert (Hnp : named_param named (print_ty t ++ tail) = false).
   { unfold named_param. rewrite (cur_print_ty t tail), is_name_t_name.
-    destruct named; [|reflexivity]. cbn [negb orb andb] in Hn |- *.
-    change (tv (t_name (head_name t))) with (head_name t). rewrite Hn. cbn [negb andb].
+    destruct named; [|reflexivity]. cbn [andb].
+    change (tv (t_name (head_name t))) with (head_name t).
     destruct t as [s|s args].
-    - unfold peek. cbn [print_ty app tl].
-      rewrite (sep_tok_is T_IDENT tail Hsep), (sep_tok_is T_LPAREN tail Hsep) by reflexivity.
-      cbn [orb]. rewrite andb_false_r. reflexivity.
-    - unfold peek. cbn [print_ty app tl cur]. simp_tok. reflexivity. }
+    - unfold peek. cbn [print_ty app tl head_name].
+      rewrite (sep_is_name tail Hsep), (sep_tok_is T_LPAREN tail Hsep), (sep_tok_is T_EQ tail Hsep) by reflexivity.
+      cbn [orb andb negb].
+      unfold sep_head in Hsep. apply orb_true_iff in Hsep. destruct Hsep as [E|E]; rewrite E; cbn [negb andb];
+        rewrite ?andb_false_r; reflexivity.
+    - apply wf_app_inv in Hwt. destruct Hwt as (_ & Hctor & _ & _).
+      unfold ctor_ok in Hctor. apply andb_true_iff in Hctor. destruct Hctor as [Hctor _].
+      apply andb_true_iff in Hctor. destruct Hctor as [Hd _].
+      unfold peek. cbn [print_ty app tl cur head_name]. rewrite Hd. simp_tok. reflexivity. }
   rewrite Hnp, is_name_t_name. change (tv (t_name (head_name t))) with (head_name t). cbn [andb].
   destruct (is_dtn (head_name t)) eqn:Hd.
-  - rewrite (IH f tail Hf (sep_follow_ok tail Hsep) Hwt Hct).
+  - rewrite (IH f tail Hf (sep_follow_ok tail Hsep) Hwt).
     destruct t as [s|s args]; cbn [expect_param]; cbn [head_name] in Hd; [rewrite Hd|]; reflexivity.
   - destruct t as [s|s args].
     + cbn [head_name] in Hd. rewrite Hd in Hat. cbn [orb] in Hat. cbn [wf_ty] in Hwt.
@@ -586,24 +582,25 @@ Qed.
 
 Lemma step_named : forall s t, Pp t -> Qp (ANamed s t).
 Proof.
-  intros s t IH named f acc tail Hf Hsep Hw Hc.
-  cbn [wf_arg code_ok_arg fuel_arg] in Hw, Hc, Hf.
-  repeat (apply andb_true_iff in Hw; destruct Hw as [Hw ?]).
-  apply andb_true_iff in Hc. destruct Hc as [Hct Hn].
+  intros s t IH named f acc tail Hf Hsep Hw.
+  cbn [wf_arg fuel_arg] in Hw, Hf.
+  apply andb_true_iff in Hw. destruct Hw as [Hw Hwt].
+  apply andb_true_iff in Hw. destruct Hw as [Hw Helem].
+  apply andb_true_iff in Hw. destruct Hw as [Hw Hfirst].
+  apply andb_true_iff in Hw. destruct Hw as [Hnamed Hid].
   subst named. cbn [print_arg]. rewrite parse_params_eq.
-  cbn [app cur]. rewrite (loop_guard_name s) by assumption.
+  cbn [app cur]. rewrite (loop_guard_name s Hfirst).
   assert (Hnp : named_param true ((t_name s :: print_ty t) ++ tail) = true).
   { unfold named_param, peek. cbn [app cur tl andb].
-    rewrite (cur_print_ty t tail), is_name_t_name.
-    rewrite (tok_is_name_false T_EQ), (tok_is_name_false T_LPAREN) by reflexivity.
+    rewrite (cur_print_ty t tail), !is_name_t_name.
+    rewrite (tok_is_name_false T_EQ), (tok_is_name_false T_COMMA), (tok_is_name_false T_RPAREN) by reflexivity.
     change (tv (t_name s)) with s. change (tv (t_name (head_name t))) with (head_name t).
+    unfold elem_name_ok in Helem.
     destruct (is_dtn s); [|reflexivity].
-    cbn [negb orb andb] in Hn |- *. apply andb_true_iff in Hn. destruct Hn as [Hn1 Hn2].
-    replace (tok_is T_IDENT (t_name (head_name t))) with true by (symmetry; exact Hn1).
-    rewrite Hn2. reflexivity. }
+    cbn [negb orb andb] in Helem |- *. rewrite Helem. reflexivity. }
   change (t_name s :: (print_ty t ++ tail)) with ((t_name s :: print_ty t) ++ tail).
   rewrite Hnp, tl_print_named.
-  rewrite (IH f tail Hf (sep_follow_ok tail Hsep) ltac:(assumption) Hct).
+  rewrite (IH f tail Hf (sep_follow_ok tail Hsep) Hwt).
   reflexivity.
 Qed.
 
@@ -614,14 +611,13 @@ Lemma after_comma : forall f named acc X, after f named acc (t_comma :: X) = par
 Proof. reflexivity. Qed.
 
 Lemma parse_args : forall named args, Forall Qp args ->
-  forallb (wf_arg named) args = true -> forallb (code_ok_arg named) args = true -> args <> [] ->
+  forallb (wf_arg named) args = true -> args <> [] ->
   forall fuel acc rest, (length args + list_sum (map fuel_arg args) <= fuel)%nat ->
   parse_params fuel named acc (join [t_comma] (map print_arg args) ++ t_rparen :: rest) =
   Ok (acc ++ map expect_param args, rest).
 Proof.
-  intros named args HF. induction HF as [|a r Ha HFr IH]; intros Hw Hc Hne fuel acc rest Hfuel; [congruence|].
-  cbn [forallb] in Hw, Hc. apply andb_true_iff in Hw. apply andb_true_iff in Hc.
-  destruct Hw as [Hw1 Hw2]. destruct Hc as [Hc1 Hc2].
+  intros named args HF. induction HF as [|a r Ha HFr IH]; intros Hw Hne fuel acc rest Hfuel; [congruence|].
+  cbn [forallb] in Hw. apply andb_true_iff in Hw. destruct Hw as [Hw1 Hw2].
   destruct r as [|b r']; cbn [length map list_sum fold_right] in Hfuel; (destruct fuel as [|f]; [lia|]).
   - cbn [map join]. rewrite (Ha named f acc (t_rparen :: rest)) by (try reflexivity; try assumption; lia).
     rewrite after_rparen. reflexivity.
@@ -645,24 +641,23 @@ Lemma parse_print_all : forall t, Pp t.
 Proof.
   apply (ty_ind2 Pp Qp).
   - (* TName *)
-    intros s fuel rest Hfuel Hfol _ _. cbn [fuel_ty] in Hfuel. destruct fuel as [|f]; [lia|].
+    intros s fuel rest Hfuel Hfol _. cbn [fuel_ty] in Hfuel. destruct fuel as [|f]; [lia|].
     apply follow_ok_inv in Hfol. destruct Hfol as (Hlp & H1 & H2 & H3 & H4 & H5 & H6 & H7).
     cbn [print_ty app expect_dt]. rewrite parse_dt_eq. cbn [cur tl].
     rewrite is_name_t_name. cbn [negb]. change (tv (t_name s)) with s.
     rewrite (mysql_width_noop _ rest Hlp), (name_mods_noop _ s rest H1 H2 H3 H4 H5 H6 H7), Hlp.
     reflexivity.
   - (* TApp *)
-    intros s args HF fuel rest Hfuel _ Hw Hc. cbn [fuel_ty] in Hfuel. destruct fuel as [|f]; [lia|].
+    intros s args HF fuel rest Hfuel _ Hw. cbn [fuel_ty] in Hfuel. destruct fuel as [|f]; [lia|].
     apply wf_app_inv in Hw. destruct Hw as (_ & Hctor & Hne & Hwa).
     apply ctor_ok_inv in Hctor. destruct Hctor as [Hmy Hobj].
-    rewrite code_ok_app in Hc.
     cbn [print_ty expect_dt]. rewrite <- !app_comm_cons, <- app_assoc. cbn [app].
     rewrite parse_dt_eq. cbn [cur tl].
     rewrite is_name_t_name. cbn [negb]. change (tv (t_name s)) with s.
     unfold mysql_width. rewrite Hmy. cbn [andb].
     rewrite name_mods_noop by apply word_is_lparen.
     cbn [cur tl]. simp_tok. rewrite Hobj.
-    rewrite (parse_args _ args HF Hwa Hc Hne f [] rest) by lia.
+    rewrite (parse_args _ args HF Hwa Hne f [] rest) by lia.
     reflexivity.
   - exact step_type.
   - exact step_named.
@@ -673,20 +668,19 @@ Proof.
 Qed.
 
 Theorem parse_print : forall t fuel rest,
-  wf_ty t = true -> code_ok t = true -> follow_ok rest = true -> (fuel_ty t <= fuel)%nat ->
+  wf_ty t = true -> follow_ok rest = true -> (fuel_ty t <= fuel)%nat ->
   parse_dt fuel (print_ty t ++ rest) = Ok (Some (expect_dt t), rest).
-Proof. intros t fuel rest Hw Hc Hf Hfuel. apply parse_print_all; assumption. Qed.
+Proof. intros t fuel rest Hw Hf Hfuel. apply parse_print_all; assumption. Qed.
 
 (* ------------------------------------------------------------------------------------------ *)
 (* D. the two cast positions *)
 
-Lemma explain_expect : forall t, wf_ty t = true -> code_ok t = true ->
-  explain_type (Some (expect_dt t)) = shown t.
+Lemma explain_expect : forall t, wf_ty t = true -> explain_type (Some (expect_dt t)) = shown t.
 Proof.
-  intros [s|s args] Hw Hc.
+  intros [s|s args] Hw.
   - unfold explain_type, shown. cbn [expect_dt dt_params fmt_dt canon_ty].
     rewrite escape_string_literal_is_esc2. reflexivity.
-  - pose proof (fmt_expect _ Hw Hc) as Hf.
+  - pose proof (fmt_expect _ Hw) as Hf.
     apply wf_app_inv in Hw. destruct Hw as (_ & _ & Hne & _).
     destruct args as [|a r]; [congruence|].
     unfold explain_type, shown. rewrite Hf. reflexivity.
@@ -700,50 +694,43 @@ Lemma peek_print_ty_rparen : forall t rest,
 Proof. intros [s|s args] rest; reflexivity. Qed.
 
 (* CAST(x AS T): from the AS token on; [vas] is the spelling of AS *)
-Theorem cast_as_shows : forall t, wf_ty t = true -> code_ok t = true ->
+Theorem cast_as_shows : forall t, wf_ty t = true ->
   forall fuel vas rest, (fuel_ty t <= fuel)%nat ->
   cast_as_text fuel ((T_AS, vas) :: print_ty t ++ t_rparen :: rest) = Ok (shown t, rest).
 Proof.
-  intros t Hw Hc fuel vas rest Hfuel. unfold cast_as_text, parse_cast_as. cbn [cur tl].
+  intros t Hw fuel vas rest Hfuel. unfold cast_as_text, parse_cast_as. cbn [cur tl].
   change (tok_is T_AS (T_AS, vas)) with true. cbv iota.
   rewrite (cur_print_ty t), is_name_t_name, peek_print_ty_rparen. cbn [andb].
-  rewrite (parse_print t fuel (t_rparen :: rest) Hw Hc (follow_ok_rparen rest) Hfuel).
+  rewrite (parse_print t fuel (t_rparen :: rest) Hw (follow_ok_rparen rest) Hfuel).
   change (expect_rparen (t_rparen :: rest)) with (@Ok (list tok) rest). cbv iota.
-  rewrite (explain_expect t Hw Hc). reflexivity.
+  rewrite (explain_expect t Hw). reflexivity.
 Qed.
 
 (* x::T: from the :: token on *)
-Theorem cast_op_shows : forall t, wf_ty t = true -> code_ok t = true ->
+Theorem cast_op_shows : forall t, wf_ty t = true ->
   forall fuel vcc rest, (fuel_ty t <= fuel)%nat -> follow_ok rest = true ->
   cast_op_text fuel ((T_COLONCOLON, vcc) :: print_ty t ++ rest) = Ok (shown t, rest).
 Proof.
-  intros t Hw Hc fuel vcc rest Hfuel Hfol. unfold cast_op_text, parse_cast_op. cbn [cur tl].
+  intros t Hw fuel vcc rest Hfuel Hfol. unfold cast_op_text, parse_cast_op. cbn [cur tl].
   change (tok_is T_COLONCOLON (T_COLONCOLON, vcc)) with true. cbv iota.
-  rewrite (parse_print t fuel rest Hw Hc Hfol Hfuel), (explain_expect t Hw Hc). reflexivity.
+  rewrite (parse_print t fuel rest Hw Hfol Hfuel), (explain_expect t Hw). reflexivity.
 Qed.
 
-(* FULL STATEMENT (C18), refuted below by C18_refuted_F1 .. F4:
-     forall t, wf_ty t = true ->
-       (forall fuel vas rest, fuel_ty t <= fuel ->
-          cast_as_text fuel ((T_AS, vas) :: print_ty t ++ t_rparen :: rest) = Ok (shown t, rest)) /\
-       (forall fuel vcc rest, fuel_ty t <= fuel -> follow_ok rest = true ->
-          cast_op_text fuel ((T_COLONCOLON, vcc) :: print_ty t ++ rest) = Ok (shown t, rest)).
-   PROVED PART: the same with the additional hypothesis [code_ok t = true] (the four deviations F1-F4 of
-   TypeSpec excluded); any nesting depth, any argument list length, every string for Enum values except
-   those containing a quote, every string without the eight escaped bytes for plain string arguments. *)
-Theorem C18_casts_partial : forall t, wf_ty t = true -> code_ok t = true ->
+(* C18 at full strength over wf_ty: every well-formed type expression, any nesting depth, any argument count,
+   every byte string as a string argument or Enum value; both positions show the same canonical text *)
+Theorem C18_casts : forall t, wf_ty t = true ->
   (forall fuel vas rest, (fuel_ty t <= fuel)%nat ->
      cast_as_text fuel ((T_AS, vas) :: print_ty t ++ t_rparen :: rest) = Ok (shown t, rest)) /\
   (forall fuel vcc rest, (fuel_ty t <= fuel)%nat -> follow_ok rest = true ->
      cast_op_text fuel ((T_COLONCOLON, vcc) :: print_ty t ++ rest) = Ok (shown t, rest)).
 Proof.
-  intros t Hw Hc. split.
+  intros t Hw. split.
   - intros fuel vas rest Hfuel. apply cast_as_shows; assumption.
   - intros fuel vcc rest Hfuel Hfol. apply cast_op_shows; assumption.
 Qed.
 
 (* the same over lexer items: any spacing, comments and positions (everything [erase] forgets) *)
-Corollary C18_items_partial : forall t, wf_ty t = true -> code_ok t = true ->
+Corollary C18_items : forall t, wf_ty t = true ->
   forall fuel (its_as its_op : list item) vas vcc rest_as rest_op,
   (fuel_ty t <= fuel)%nat -> follow_ok rest_op = true ->
   erase its_as = (T_AS, vas) :: print_ty t ++ t_rparen :: rest_as ->
@@ -751,7 +738,7 @@ Corollary C18_items_partial : forall t, wf_ty t = true -> code_ok t = true ->
   cast_as_text fuel (erase its_as) = Ok (shown t, rest_as) /\
   cast_op_text fuel (erase its_op) = Ok (shown t, rest_op).
 Proof.
-  intros t Hw Hc fuel its_as its_op vas vcc rest_as rest_op Hfuel Hfol Ea Eo.
+  intros t Hw fuel its_as its_op vas vcc rest_as rest_op Hfuel Hfol Ea Eo.
   rewrite Ea, Eo. split; [apply cast_as_shows|apply cast_op_shows]; assumption.
 Qed.
 
@@ -869,122 +856,107 @@ Proof.
   - intros s neg n. cbn [fuel_arg]. lia.
 Qed.
 
-(* FULL STATEMENT: forall t, wf_ty t = true -> forall toks, drop_eof (strip_trivia toks) = print_ty t ->
-     run_cast_as toks = Ok (shown t) /\ run_cast_op toks = Ok (shown t).   Refuted by C18_refuted_F1..F4. *)
-Theorem C18_run_partial : forall t, wf_ty t = true -> code_ok t = true ->
+Theorem C18_run : forall t, wf_ty t = true ->
   forall toks, drop_eof (strip_trivia toks) = print_ty t ->
   run_cast_as toks = Ok (shown t) /\ run_cast_op toks = Ok (shown t).
 Proof.
-  intros t Hw Hc toks E. destruct (print_clean t Hw) as [_ Hascii].
+  intros t Hw toks E. destruct (print_clean t Hw) as [_ Hascii].
   assert (Hfuel : (fuel_ty t <= fuel_for (print_ty t))%nat).
   { pose proof (fuel_le_tokens_all t) as H. unfold Pl in H. unfold fuel_for. lia. }
   unfold run_cast_as, run_cast_op. rewrite E, Hascii. cbn [negb]. split.
   - change ((T_AS, [65; 83]) :: print_ty t ++ [(T_RPAREN, [41])])
       with ((T_AS, [65; 83]) :: print_ty t ++ t_rparen :: []).
-    rewrite (cast_as_shows t Hw Hc _ _ [] Hfuel). reflexivity.
+    rewrite (cast_as_shows t Hw _ _ [] Hfuel). reflexivity.
   - rewrite <- (app_nil_r (print_ty t)) at 2.
-    rewrite (cast_op_shows t Hw Hc _ _ [] Hfuel eq_refl). reflexivity.
+    rewrite (cast_op_shows t Hw _ _ [] Hfuel eq_refl). reflexivity.
 Qed.
 
 (* what the lexer hands over for a type written with any separators: trivia anywhere, EOF at the end *)
-Corollary C18_run_print_partial : forall t, wf_ty t = true -> code_ok t = true ->
+Corollary C18_run_print : forall t, wf_ty t = true ->
   run_cast_as (print_ty t ++ [eof_tok]) = Ok (shown t) /\ run_cast_op (print_ty t ++ [eof_tok]) = Ok (shown t).
 Proof.
-  intros t Hw Hc. apply C18_run_partial; try assumption.
+  intros t Hw. apply C18_run; try assumption.
   destruct (print_clean t Hw) as [Hclean _].
   unfold drop_eof, strip_trivia in *. rewrite !filter_app, Hclean. cbn. apply app_nil_r.
 Qed.
 
+Theorem parse_and_print : forall t fuel rest,
+  wf_ty t = true -> follow_ok rest = true -> (fuel_ty t <= fuel)%nat ->
+  parse_dt fuel (print_ty t ++ rest) = Ok (Some (expect_dt t), rest) /\
+  fmt_dt (expect_dt t) = esc (esc (canon_ty t)).
+Proof.
+  intros t fuel rest Hw Hf Hfuel. split; [apply parse_print|apply fmt_expect]; assumption.
+Qed.
+
 (* ------------------------------------------------------------------------------------------ *)
-(* F. the full statement is false for today's code: one witness per deviation, evaluated in the model
-      (each witness is also replayed against the real code by /verif/checks/gen_type_cases.py) *)
+(* F. the four former counterexamples (findings F1..F4, fixed in /repo by 32c2210d9 1efc0f566 42e55a7bf 85b302a0b):
+      each is well-formed and now prints the canonical text in both positions.  The equalities with [shown]
+      are instances of C18_run_print; they are also evaluated here, with the expected text written out. *)
 From Coq Require Import Strings.String Strings.Ascii.
 
 Definition B (s : string) : list N := map N_of_ascii (list_ascii_of_string s).
 
-(* F1  DateTime('it's'): FormatDataType prints a plain string argument unescaped.
-       model/code:  \'DateTime(\\\'it's\\\')\'      spec:  \'DateTime(\\\'it\\\\\\\'s\\\')\'  *)
+(* F1  DateTime('it's'): a plain string argument is escaped like an Enum value *)
 Definition wit_F1 : ty := TApp (B "DateTime") [AStr (B "it's")].
-(* F2  Enum8('it's' = 1): escapeStringForTypeParam writes 5 backslashes + quote, the canonical text has 7.
-       model/code:  \'Enum8(\\\'it\\\\\'s\\\' = 1)\'     spec:  \'Enum8(\\\'it\\\\\\\'s\\\' = 1)\'  *)
+(* F2  Enum8('it's' = 1): the quote takes 7 backslashes *)
 Definition wit_F2 : ty := TApp (B "Enum8") [AEnum (B "it's") false 1].
-(* F3  Tuple(LineString, String): the unknown plain name is taken for an element name and dropped.
-       model/code:  \'Tuple(String)\'                 spec:  \'Tuple(LineString, String)\'  *)
+(* F3  Tuple(LineString, String): an unknown plain name followed by "," keeps its place *)
 Definition wit_F3 : ty := TApp (B "Tuple") [AType (TName (B "LineString")); AType (TName (B "String"))].
-(* F4  Tuple(date Array(Int32)): element name that isDataTypeName knows, before the keyword token Array.
-       model/code:  parse error                       spec:  \'Tuple(date Array(Int32))\'  *)
+(* F4  Tuple(date Array(Int32)): element name that isDataTypeName knows, before the keyword token Array *)
 Definition wit_F4 : ty := TApp (B "Tuple") [ANamed (B "date") (TApp (B "Array") [AType (TName (B "Int32"))])].
 
-Definition differs (r : res (list N)) (expected : list N) : bool :=
-  match r with Ok out => negb (bytes_eqb out expected) | ParseErr => true | _ => false end.
+Definition shows (t : ty) (text : list N) : Prop :=
+  wf_ty t = true /\ shown t = text /\
+  run_cast_as (print_ty t ++ [eof_tok]) = Ok text /\ run_cast_op (print_ty t ++ [eof_tok]) = Ok text.
 
-Definition refutes (t : ty) : Prop :=
-  wf_ty t = true /\
-  differs (run_cast_as (print_ty t ++ [eof_tok])) (shown t) = true /\
-  differs (run_cast_op (print_ty t ++ [eof_tok])) (shown t) = true.
-
-Lemma C18_refuted_F1 : refutes wit_F1 /\
-  run_cast_as (print_ty wit_F1 ++ [eof_tok]) = Ok (B "\'DateTime(\\\'it's\\\')\'") /\
-  shown wit_F1 = B "\'DateTime(\\\'it\\\\\\\'s\\\')\'".
+Lemma former_F1_fixed : shows wit_F1 (B "\'DateTime(\\\'it\\\\\\\'s\\\')\'").
 Proof. vm_compute. repeat split; reflexivity. Qed.
 
-Lemma C18_refuted_F2 : refutes wit_F2 /\
-  run_cast_as (print_ty wit_F2 ++ [eof_tok]) = Ok (B "\'Enum8(\\\'it\\\\\'s\\\' = 1)\'") /\
-  shown wit_F2 = B "\'Enum8(\\\'it\\\\\\\'s\\\' = 1)\'".
+Lemma former_F2_fixed : shows wit_F2 (B "\'Enum8(\\\'it\\\\\\\'s\\\' = 1)\'").
 Proof. vm_compute. repeat split; reflexivity. Qed.
 
-Lemma C18_refuted_F3 : refutes wit_F3 /\
-  run_cast_as (print_ty wit_F3 ++ [eof_tok]) = Ok (B "\'Tuple(String)\'") /\
-  shown wit_F3 = B "\'Tuple(LineString, String)\'".
+Lemma former_F3_fixed : shows wit_F3 (B "\'Tuple(LineString, String)\'").
 Proof. vm_compute. repeat split; reflexivity. Qed.
 
-Lemma C18_refuted_F4 : refutes wit_F4 /\
-  run_cast_as (print_ty wit_F4 ++ [eof_tok]) = ParseErr /\
-  run_cast_op (print_ty wit_F4 ++ [eof_tok]) = ParseErr /\
-  shown wit_F4 = B "\'Tuple(date Array(Int32))\'".
+Lemma former_F4_fixed : shows wit_F4 (B "\'Tuple(date Array(Int32))\'").
 Proof. vm_compute. repeat split; reflexivity. Qed.
 
-(* hence the unrestricted statement does not hold of the model of today's code *)
-Theorem C18_full_refuted :
-  ~ (forall t, wf_ty t = true ->
-       run_cast_as (print_ty t ++ [eof_tok]) = Ok (shown t) /\ run_cast_op (print_ty t ++ [eof_tok]) = Ok (shown t)).
-Proof.
-  intros H. destruct (H wit_F1) as [H1 _]; [vm_compute; reflexivity|].
-  destruct C18_refuted_F1 as [[_ [Hd _]] _]. rewrite H1 in Hd. cbn [differs] in Hd.
-  rewrite bytes_eqb_refl in Hd. discriminate.
-Qed.
+Theorem former_findings_fixed :
+  shows wit_F1 (B "\'DateTime(\\\'it\\\\\\\'s\\\')\'") /\
+  shows wit_F2 (B "\'Enum8(\\\'it\\\\\\\'s\\\' = 1)\'") /\
+  shows wit_F3 (B "\'Tuple(LineString, String)\'") /\
+  shows wit_F4 (B "\'Tuple(date Array(Int32))\'").
+Proof. exact (conj former_F1_fixed (conj former_F2_fixed (conj former_F3_fixed former_F4_fixed))). Qed.
+
+(* the residual restriction of wf_ty (TypeSpec.elem_name_ok) is needed: an element name that isDataTypeName knows
+   before a plain type name that it does not know is still a parse error in both positions *)
+Definition residual_ty : ty := TApp (B "Tuple") [ANamed (B "date") (TName (B "LineString"))].
+
+Lemma residual_named_elem :
+  wf_ty residual_ty = false /\
+  run_cast_as (print_ty residual_ty ++ [eof_tok]) = ParseErr /\
+  run_cast_op (print_ty residual_ty ++ [eof_tok]) = ParseErr.
+Proof. vm_compute. repeat split; reflexivity. Qed.
 
 (* ------------------------------------------------------------------------------------------ *)
 (* G. a non-trivial object satisfying the hypotheses *)
 
-(* Map(String, Array(Tuple(a Nullable(DateTime64(3, 'UTC')), b Enum8('x\y' = -1, 'z' = 2), Decimal(10, 2)))) *)
+(* Map(String, Array(Tuple(a Nullable(DateTime64(3, 'UTC')), date Array(Enum8('x\y' = -1, 'it''s' = 2)),
+                            LineString, Decimal(10, 2)))) *)
 Definition example_ty : ty :=
   TApp (B "Map")
     [ AType (TName (B "String"))
     ; AType (TApp (B "Array")
         [ AType (TApp (B "Tuple")
             [ ANamed (B "a") (TApp (B "Nullable") [AType (TApp (B "DateTime64") [ANum 3; AStr (B "UTC")])])
-            ; ANamed (B "b") (TApp (B "Enum8") [AEnum (B "x\y") true 1; AEnum (B "z") false 2])
+            ; ANamed (B "date") (TApp (B "Array") [AType (TApp (B "Enum8") [AEnum (B "x\y") true 1; AEnum (B "it's") false 2])])
+            ; AType (TName (B "LineString"))
             ; AType (TApp (B "Decimal") [ANum 10; ANum 2]) ]) ]) ].
 
 Lemma example_ok :
-  wf_ty example_ty = true /\ code_ok example_ty = true /\
+  wf_ty example_ty = true /\
   canon_ty example_ty =
-    B "Map(String, Array(Tuple(a Nullable(DateTime64(3, 'UTC')), b Enum8('x\\y' = -1, 'z' = 2), Decimal(10, 2))))" /\
+    B "Map(String, Array(Tuple(a Nullable(DateTime64(3, 'UTC')), date Array(Enum8('x\\y' = -1, 'it\'s' = 2)), LineString, Decimal(10, 2))))" /\
   shown example_ty =
-    B "\'Map(String, Array(Tuple(a Nullable(DateTime64(3, \\\'UTC\\\')), b Enum8(\\\'x\\\\\\\\y\\\' = -1, \\\'z\\\' = 2), Decimal(10, 2))))\'".
+    B "\'Map(String, Array(Tuple(a Nullable(DateTime64(3, \\\'UTC\\\')), date Array(Enum8(\\\'x\\\\\\\\y\\\' = -1, \\\'it\\\\\\\'s\\\' = 2)), LineString, Decimal(10, 2))))\'".
 Proof. vm_compute. repeat split; reflexivity. Qed.
-
-(* packaged for Properties/C18.v *)
-Theorem parse_and_print : forall t fuel rest,
-  wf_ty t = true -> code_ok t = true -> follow_ok rest = true -> (fuel_ty t <= fuel)%nat ->
-  parse_dt fuel (print_ty t ++ rest) = Ok (Some (expect_dt t), rest) /\
-  fmt_dt (expect_dt t) = esc (esc (canon_ty t)).
-Proof.
-  intros t fuel rest Hw Hc Hf Hfuel. split; [apply parse_print|apply fmt_expect]; assumption.
-Qed.
-
-Theorem refuted_witnesses : refutes wit_F1 /\ refutes wit_F2 /\ refutes wit_F3 /\ refutes wit_F4.
-Proof.
-  exact (conj (proj1 C18_refuted_F1) (conj (proj1 C18_refuted_F2) (conj (proj1 C18_refuted_F3) (proj1 C18_refuted_F4)))).
-Qed.
